@@ -26,13 +26,25 @@ Gap sweep (second round) — dimensions that used to be held fixed are crossed w
   prompt. A reply given without consulting any agent is classified from the call log only: breaker
   enabled + blocked + no token + not flagged cached = refusal (allowed), else it must equal the original.
 
+Unknown-verdict alphabet (self-extending): besides the hand-picked spellings, every string constant of the library
+source (the anchored files core/types.py, core/agent.py, topology/loops.py, the modules that define the classes
+under test, and the rest of the package) that looks like an action word (UPPER_CASE identifier: SUCCESS, BLOCKED,
+SKIPPED, ERROR, CIRCUIT_OPEN, ...) is harvested with `ast`, in upper/lower/title case, minus the six verdict types
+the statement gives meaning to; each word is run as executor and as assessor verdict against every base verdict (and
+itself) under all 6 gate logics.  A word the library uses elsewhere (a LoopResult.action forwarded from a nested
+guard, a helper's notion of "success") must not count as the key of the agent that returned it.
+
 Oracle (one-directional, from the statement): not blocked => reference table satisfied; token => assessor
 verdict PERMIT, hash is a sha256 prefix (>=16 hex) of exactly this prompt, issuer == assessor name;
 cached reply == original reply (blocked, success, action, token hash+issuer) of the same prompt.
 """
 from __future__ import annotations
 
+import ast
 import hashlib
+import os
+import re
+import sys
 import unicodedata
 
 from mc import common, explore, vclock
@@ -51,6 +63,72 @@ EXTRA_VERDICTS = ["permit", "", "APPROVE", None, "PERMIT ", True]
 ODD_ANSWERS = ["raise:ValueError()", "raise:StopIteration", "raise:KeyError('')", "raise:BaseException",
                "ret:None", "ret:str", "ret:dict"]
 VERDICTS = BASE_VERDICTS + EXTRA_VERDICTS + ODD_ANSWERS
+
+MEANINGFUL = ("EXECUTE", "PERMIT", "BLOCK", "FAILURE", "DEFER", "UNKNOWN")  # the statement's verdict types
+ANCHOR_FILES = ("core/types.py", "core/agent.py", "topology/loops.py")
+_ACTION_WORD = re.compile(r"[A-Z][A-Z0-9_]{1,31}")
+_harvest_cache = None
+
+
+def _action_words(path):
+    with open(path, encoding="utf-8") as f:
+        tree = ast.parse(f.read())
+    return {n.value for n in ast.walk(tree)
+            if isinstance(n, ast.Constant) and isinstance(n.value, str) and _ACTION_WORD.fullmatch(n.value)}
+
+
+def harvest():
+    """-> (words, info).  Action words the library itself uses, read from its source with ast; every source that
+    cannot be found / parsed is skipped (a refactor may move constants around): the hand-picked list stays."""
+    global _harvest_cache
+    if _harvest_cache is not None:
+        return _harvest_cache
+    import operon_ai
+    root = os.path.dirname(os.path.abspath(operon_ai.__file__))
+    anchored = [os.path.join(root, *rel.split("/")) for rel in ANCHOR_FILES]
+    try:  # wherever the classes under test (and the built-in agents) live now
+        probe = CoherentFeedForwardLoop(budget=ATP_Store(budget=10, silent=True), silent=True)
+        objs = [ActionProtein, CoherentFeedForwardLoop, GateLogic, type(probe.executor), type(probe.assessor)]
+    except Exception:  # noqa: BLE001
+        objs = [ActionProtein, CoherentFeedForwardLoop, GateLogic]
+    for o in objs:
+        for klass in getattr(o, "__mro__", ()):
+            f = getattr(sys.modules.get(klass.__module__), "__file__", None)
+            if f and f.endswith(".py") and os.path.abspath(f).startswith(root):
+                anchored.append(os.path.abspath(f))
+    rest = []
+    for d, dirs, files in os.walk(root):
+        dirs.sort()
+        rest += [os.path.join(d, f) for f in sorted(files) if f.endswith(".py")]
+    base, near, skipped, parsed = set(), set(), [], 0
+    for path in dict.fromkeys(anchored + rest):
+        try:
+            w = _action_words(path)
+        except Exception as e:  # noqa: BLE001 - missing / moved / unparsable source: go without it
+            if path in anchored:
+                skipped.append(f"{os.path.relpath(path, root)}: {type(e).__name__}")
+            continue
+        parsed += 1
+        base |= w
+        if path in anchored:
+            near |= w
+    words = set()
+    for w in base | set(MEANINGFUL):
+        words |= {w, w.lower(), w.title()}
+    words -= set(MEANINGFUL)
+    # spellings the stub agents use as control codes are not verdict words
+    words = sorted(w for w in words if not (is_raise(w) or w.startswith("ret:")))
+    info = {"files_parsed": parsed, "anchored_skipped": skipped, "from_anchored_sources": sorted(near - set(MEANINGFUL)),
+            "from_rest_of_package": sorted(base - near - set(MEANINGFUL)), "words": len(words)}
+    _harvest_cache = (words, info)
+    return _harvest_cache
+
+
+def unknown_alphabet():
+    """hand-picked spellings + harvested words (in that order, no duplicates)"""
+    words, _ = harvest()
+    return EXTRA_VERDICTS + [w for w in words if not any(w is x or (type(w) is type(x) and w == x) for x in EXTRA_VERDICTS)]
+
 
 PROMPTS = [
     "Deploy to production",
@@ -373,6 +451,34 @@ def d_worker(chunk):
                     out["viol"].append((key, what, {"kind": "cell", "logic": logic, "cfg": cfg, "pi": pi,
                                                     "ex": ex, "as": as_}))
     return out
+
+
+# ---- unknown-verdict alphabet (hand-picked + harvested from the library source) x gate-logic table ----
+
+def word_items(quick):
+    cfgs = BASE_CFGS + [all_cfgs()[-1]] if quick else all_cfgs()
+    # the hand-picked spellings are part of VERDICTS: the table family runs them against everything already
+    return [(lg, cfg, w) for lg in LOGICS for cfg in cfgs for w in harvest()[0] if w not in VERDICTS]
+
+
+def word_worker(chunk):
+    out = _new_out()
+    quick = word_worker.quick
+    for logic, cfg, w in chunk:
+        partners = BASE_VERDICTS if quick else VERDICTS
+        pairs = [(w, p) for p in partners] + [(p, w) for p in partners] + [(w, w)]
+        for ex, as_ in pairs:
+            v, lasts, n = run_cell(logic, cfg, PROMPTS[0], ex, as_)
+            out["execs"] += n
+            out["cells"] += 1
+            _tally(out, logic, cfg, None, ex, as_, lasts)
+            for key, what in v:
+                out["viol"].append((key, f"[verdict word {w!r} of the unknown-verdict alphabet] {what}",
+                                    {"kind": "cell", "logic": logic, "cfg": cfg, "pi": 0, "ex": ex, "as": as_}))
+    return out
+
+
+word_worker.quick = True
 
 
 # ---- payload / confidence / metadata shapes x base table ----------------------------------------
@@ -701,6 +807,9 @@ def run(ctx):
     for h, ps in sorted(by_hash.items()):
         if len(ps) > 1:
             viol.append(("token-hash-not-bound-to-request", f"prompts {sorted(ps)} share request hash {h}", {"kind": "hashfn"}))
+    words, hinfo = harvest()
+    word_worker.quick = quick
+    fam_w = _family(ctx, word_worker, word_items(quick), tot, viol)
     fam_s = _family(ctx, shape_worker, shape_items(), tot, viol)
     fam_i = _family(ctx, ident_worker, ident_items(), tot, viol)
     fam_h = _family(ctx, hist_worker, hist_items(quick), tot, viol)
@@ -748,6 +857,10 @@ def run(ctx):
              + str(not any(len(o) == 6 and o[1] == "evaluated" and o[2] and o[5] for o in ctx.outcomes if o[0] != "real")))
     ctx.note("not asserted (not in the statement): that an expired cache entry is re-evaluated, that a closed breaker "
              "never refuses, what on_block/on_permit receive, re-assignment of loop.gate_logic after replies were cached")
+    if hinfo["anchored_skipped"] or not hinfo["from_anchored_sources"]:
+        ctx.note(f"unknown-verdict harvest degraded: skipped {hinfo['anchored_skipped']}, "
+                 f"{len(hinfo['from_anchored_sources'])} words from the anchored sources, {len(words)} words in total; "
+                 f"the hand-picked spellings are run regardless")
     if tot["raises"]:
         ctx.note(f"{tot['raises']} calls: run() itself raised (prompt not utf-8 encodable, agent answer that is no "
                  f"verdict object, payload that cannot be rendered, BaseException from an agent); counted as not passed")
@@ -760,8 +873,10 @@ def run(ctx):
         traces_validated_against_impl=tot["execs"] + res["transitions"] + real_exec,
         evaluations=n_d + res["transitions"],
         distinct_nontrivial=tot["nontrivial"],
-        rule="engine D, four exhaustive families on fresh real loops: (table) every (gate logic, option tuple, prompt, "
+        rule="engine D, five exhaustive families on fresh real loops: (table) every (gate logic, option tuple, prompt, "
              "executor answer, assessor answer) cell = 3 run() calls (answer; opposite verdicts; again after the TTL); "
+             "(unknown words) every hand-picked or source-harvested non-verdict action word as executor / assessor / "
+             "both x every base verdict x gate logic; "
              "(shapes) base table x executor/assessor payload-confidence shapes; (identity) every near-miss variant of "
              "every base prompt, both orders, 4 calls; (history) base table after every prefix x tail x target. "
              "distinct = distinct cell / pair; non-trivial = first (table, shapes) or judged (history) reply is NOT the "
@@ -773,10 +888,12 @@ def run(ctx):
         depth_completed=res["depth_completed"],
         gate_logics=len(LOGICS),
         verdict_alphabet=[repr(v) for v in VERDICTS],
+        unknown_verdict_alphabet=[repr(v) for v in unknown_alphabet()],
+        unknown_verdict_harvest=hinfo,
         option_tuples=len(cfgs),
         prompts=len(pis),
         table_cells=len(LOGICS) * len(VERDICTS) ** 2,
-        family_cells={"table": fam_d["cells"], "shapes": fam_s["cells"], "identity_pairs": fam_i["pairs"],
+        family_cells={"table": fam_d["cells"], "unknown_words": fam_w["cells"], "shapes": fam_s["cells"], "identity_pairs": fam_i["pairs"],
                       "history": fam_h["cells"]},
         identity_variants=[len(variants(b)) for b in IDENT_BASES],
         history_prefixes=len(hist_prefixes(quick)),
